@@ -231,3 +231,201 @@ Print Assumptions ancilla_sem.
 
 Example ancilla_premises_met : gc_wf demo_circuit /\ mat_eq 2 (sem demo_oracles (@igate unit)) eye.
 Proof. exact (conj demo_wf demo_identity). Qed.
+
+(* ================================================================== the model is the code *)
+(* Circuit.__init__ / __add__ / inverse / controlled, _circuit_size_by_operations, the singledispatch function
+   _append_to_circuit with _append_operation and _append_circuit (circuits/_circuit.py), create_layer_of_gates,
+   apply_gate_to_qubits, add_ancilla_register (circuits/_generators.py) and the constant I (circuits/_builtin_gates.py)
+   are TRANSLATED from their source on every run (tr/tr_circuit.py -> Gen/CircuitGen.v; the meaning of the Python
+   building blocks is Circ/CircuitTrSupport.v) and proved equal to the model functions of Circ/Constructions.v used
+   above (Circ/CircuitGenProofs.v).  The generated functions abstract over the world below circuits (record pyenv);
+   [menv P pfree ord] is the model's: operations = (gate expression of C07, tuple of Python ints), .dagger /
+   .controlled(k) = GateAst's methods (None = the constructor's ValueError), set iteration order = an arbitrary
+   function ord (an input).  [inj_c] writes a model circuit with Python ints; [lift_c e] writes the model's None as
+   the exception e.  Guards: [ops_guard] / [mk_guard] exclude a non-empty operation list without any qubit index,
+   where the code raises (max() of an empty sequence) and the model computes width 1 - a deviation of the model
+   outside gc_wf, stated below as generated_size_without_qubits_deviates. *)
+Require Import Coq.ZArith.ZArith.
+Require Import OQ.Circ.CircuitTrSupport OQ.Gen.CircuitGen OQ.Circ.CircuitGenProofs.
+
+Theorem generated_size_is_model : forall (P : Type) (pfree : P -> bool) (ord : list Z -> list Z) (ops : list (gop P)),
+  ops_guard P ops ->
+  circuit_size_by_operations_gen (menv P pfree ord) (map (inj_op P) ops) = Ok (Z.of_nat (size_ops ops)).
+Proof. exact size_gen_is_model. Qed.
+Print Assumptions generated_size_is_model.
+
+Theorem generated_size_without_qubits_deviates : forall (P : Type) (pfree : P -> bool) (ord : list Z -> list Z) (ops : list (gop P)),
+  ops <> [] -> flat_map snd ops = [] ->
+  circuit_size_by_operations_gen (menv P pfree ord) (map (inj_op P) ops) = Raise ValueError /\ size_ops ops = 1.
+Proof. exact size_gen_no_qubits. Qed.
+Print Assumptions generated_size_without_qubits_deviates.
+
+Theorem generated_init_is_model : forall (P : Type) (pfree : P -> bool) (ord : list Z -> list Z) (ops : list (gop P)) (n : nat),
+  mk_guard P ops n ->
+  Circuit_init_gen (menv P pfree ord) (Some (map (inj_op P) ops)) (Some (Z.of_nat n)) = Ok (inj_c P pfree ord (mk_gcirc ops n)).
+Proof. exact init_gen_is_model. Qed.
+Print Assumptions generated_init_is_model.
+
+(* for every environment: a negative n_qubits is refused (the model has no negative widths) *)
+Theorem generated_init_negative_width : forall (E : pyenv) (ops : option (list (Op E))) (n : Z),
+  (n < 0)%Z -> Circuit_init_gen E ops (Some n) = Raise ValueError.
+Proof. exact init_gen_negative. Qed.
+Print Assumptions generated_init_negative_width.
+
+Theorem generated_add_operation_is_model : forall (P : Type) (pfree : P -> bool) (ord : list Z -> list Z) (c : gcirc P) (op : gop P),
+  snd op <> [] ->
+  Circuit_add_gen (menv P pfree ord) (inj_c P pfree ord c) (inr (inj_op P op)) = Ok (inj_c P pfree ord (gc_append c op)).
+Proof. exact add_operation_gen_is_model. Qed.
+Print Assumptions generated_add_operation_is_model.
+
+Theorem generated_add_circuit_is_model : forall (P : Type) (pfree : P -> bool) (ord : list Z -> list Z) (c1 c2 : gcirc P),
+  mk_guard P (gc_ops c1 ++ gc_ops c2) (Nat.max (gc_n c1) (gc_n c2)) ->
+  Circuit_add_gen (menv P pfree ord) (inj_c P pfree ord c1) (inl (inj_c P pfree ord c2)) = Ok (inj_c P pfree ord (gc_add c1 c2)).
+Proof. exact add_circuit_gen_is_model. Qed.
+Print Assumptions generated_add_circuit_is_model.
+
+(* an operation that is not a GateOperation: nothing is registered with the singledispatch function *)
+Theorem generated_add_other_operation : forall (E : pyenv) (c : Circuit_obj E) (o : Op E),
+  op_is_GateOperation E o = false -> Circuit_add_gen E c (inr o) = Raise NotImplementedError.
+Proof. exact add_gen_other_operation. Qed.
+Print Assumptions generated_add_other_operation.
+
+Theorem generated_inverse_is_model : forall (P : Type) (pfree : P -> bool) (ord : list Z -> list Z) (c : gcirc P),
+  mk_guard P (gc_ops c) (gc_n c) ->
+  Circuit_inverse_gen (menv P pfree ord) (inj_c P pfree ord c) = lift_c P pfree ord ValueError (inverse pfree c).
+Proof. exact inverse_gen_is_model. Qed.
+Print Assumptions generated_inverse_is_model.
+
+(* in the vocabulary of the theorems above: every operation has a qubit (part of gc_wf) *)
+Theorem generated_inverse_is_model_on_well_formed : forall (P : Type) (pfree : P -> bool) (ord : list Z -> list Z) (c : gcirc P),
+  gc_wf c ->
+  Circuit_inverse_gen (menv P pfree ord) (inj_c P pfree ord c) = lift_c P pfree ord ValueError (inverse pfree c).
+Proof.
+  intros P pfree ord c H. apply inverse_gen_is_model_wf.
+  exact (Forall_impl _ (fun op (W : op_wf (gc_n c) op) => proj1 (proj2 W)) H).
+Qed.
+Print Assumptions generated_inverse_is_model_on_well_formed.
+
+Theorem generated_controlled_is_model : forall (P : Type) (pfree : P -> bool) (ord : list Z -> list Z) (c : gcirc P) (k : nat),
+  Circuit_controlled_gen (menv P pfree ord) (inj_c P pfree ord c) (Z.of_nat k)
+  = lift_c P pfree ord ValueError (controlled_circuit pfree k c).
+Proof. exact controlled_gen_is_model. Qed.
+Print Assumptions generated_controlled_is_model.
+
+(* apply_gate_to_qubits: [order] (the model's input) is what the environment's set order gives for the collection *)
+Theorem generated_apply_with_rows_is_model : forall (P : Type) (pfree : P -> bool) (ord : list Z -> list Z) (c : gcirc P)
+    (qs order : list nat) (pf : list P -> result (gate P)) (fac : list P -> gate P) (rows : list (list P)),
+  ord (map Z.of_nat qs) = map Z.of_nat order -> (forall ps, pf ps = Ok (fac ps)) ->
+  apply_gate_to_qubits_gen (menv P pfree ord) (inj_c P pfree ord c) (map Z.of_nat qs) (inl pf) (Some rows)
+  = lift_c P pfree ord AssertionError (apply_gate_to_qubits c order fac (Some rows)).
+Proof. exact apply_gen_rows_is_model. Qed.
+Print Assumptions generated_apply_with_rows_is_model.
+
+Theorem generated_apply_with_gate_is_model : forall (P : Type) (pfree : P -> bool) (ord : list Z -> list Z) (c : gcirc P)
+    (qs order : list nat) (g : gate P) (fac : list P -> gate P),
+  ord (map Z.of_nat qs) = map Z.of_nat order -> fac [] = g ->
+  apply_gate_to_qubits_gen (menv P pfree ord) (inj_c P pfree ord c) (map Z.of_nat qs) (inr g) None
+  = lift_c P pfree ord AssertionError (apply_gate_to_qubits c order fac None).
+Proof. exact apply_gen_gate_is_model. Qed.
+Print Assumptions generated_apply_with_gate_is_model.
+
+(* the other argument combinations, for every environment *)
+Theorem generated_apply_wrong_row_count : forall (E : pyenv) (c : Circuit_obj E) (qs : list Z)
+    (fac : (pyproto E + Gate E)%type) (rows : list (list (Param E))),
+  List.length rows <> List.length (set_order E qs) -> apply_gate_to_qubits_gen E c qs fac (Some rows) = Raise AssertionError.
+Proof. exact apply_gen_wrong_row_count. Qed.
+Print Assumptions generated_apply_wrong_row_count.
+
+Theorem generated_apply_gate_with_rows_not_modelled : forall (E : pyenv) (c : Circuit_obj E) (qs : list Z) (g : Gate E)
+    (rows : list (list (Param E))),
+  List.length rows = List.length (set_order E qs) -> apply_gate_to_qubits_gen E c qs (inr g) (Some rows) = Raise NotModelled.
+Proof. exact apply_gen_gate_with_rows. Qed.
+Print Assumptions generated_apply_gate_with_rows_not_modelled.
+
+Theorem generated_apply_prototype_without_rows_not_modelled : forall (E : pyenv) (c : Circuit_obj E) (qs : list Z) (pf : pyproto E),
+  apply_gate_to_qubits_gen E c qs (inl pf) None = Raise NotModelled.
+Proof. exact apply_gen_prototype_without_rows. Qed.
+Print Assumptions generated_apply_prototype_without_rows_not_modelled.
+
+(* create_layer_of_gates: the model iterates set(range(n)) upwards; that is the guard *)
+Theorem generated_layer_with_rows_is_model : forall (P : Type) (pfree : P -> bool) (ord : list Z -> list Z) (n : nat)
+    (pf : list P -> result (gate P)) (fac : list P -> gate P) (rows : list (list P)),
+  ord (py_range (Z.of_nat n)) = py_range (Z.of_nat n) -> (forall ps, pf ps = Ok (fac ps)) ->
+  create_layer_of_gates_gen (menv P pfree ord) (Z.of_nat n) (inl pf) (Some rows)
+  = lift_c P pfree ord AssertionError (create_layer n fac (Some rows)).
+Proof. exact create_layer_gen_rows_is_model. Qed.
+Print Assumptions generated_layer_with_rows_is_model.
+
+Theorem generated_layer_with_gate_is_model : forall (P : Type) (pfree : P -> bool) (ord : list Z -> list Z) (n : nat)
+    (g : gate P) (fac : list P -> gate P),
+  ord (py_range (Z.of_nat n)) = py_range (Z.of_nat n) -> fac [] = g ->
+  create_layer_of_gates_gen (menv P pfree ord) (Z.of_nat n) (inr g) None
+  = lift_c P pfree ord AssertionError (create_layer n fac None).
+Proof. exact create_layer_gen_gate_is_model. Qed.
+Print Assumptions generated_layer_with_gate_is_model.
+
+Theorem generated_identity_gate_is_model : forall (P : Type) (pfree : P -> bool) (ord : list Z -> list Z),
+  I_gen (menv P pfree ord) = igate.
+Proof. exact I_gen_is_model. Qed.
+Print Assumptions generated_identity_gate_is_model.
+
+Theorem generated_ancilla_is_model : forall (P : Type) (pfree : P -> bool) (ord : list Z -> list Z) (c : gcirc P) (a : nat),
+  add_ancilla_register_gen (menv P pfree ord) (inj_c P pfree ord c) (Z.of_nat a) = Ok (inj_c P pfree ord (add_ancilla c a)).
+Proof. exact ancilla_gen_is_model. Qed.
+Print Assumptions generated_ancilla_is_model.
+
+(* the generated functions run: Circuit.controlled(1) and Circuit.inverse() of the demonstration circuit, and
+   apply_gate_to_qubits on the collection [5; 1; 3; 3] with the set iterated as 1, 3, 5 *)
+Example generated_controlled_runs :
+  Circuit_controlled_gen (menv unit nofree (fun xs => xs)) (inj_c unit nofree (fun xs => xs) demo_circuit) 1%Z
+  = Ok (mk_Circuit (menv unit nofree (fun xs => xs))
+          [(Ctrl sg 1, [1; 2]%Z); (Ctrl xg 2, [1; 3; 0]%Z); (Ctrl xg 1, [1; 0]%Z)] 4%Z).
+Proof. vm_compute. reflexivity. Qed.
+
+Example generated_inverse_runs :
+  Circuit_inverse_gen (menv unit nofree (fun xs => xs)) (inj_c unit nofree (fun xs => xs) demo_circuit)
+  = Ok (mk_Circuit (menv unit nofree (fun xs => xs)) [(xg, [0]%Z); (Ctrl xg 1, [2; 0]%Z); (Dag sg, [1]%Z)] 3%Z).
+Proof. vm_compute. reflexivity. Qed.
+
+Example generated_apply_runs :
+  apply_gate_to_qubits_gen (menv unit nofree (fun _ => [1; 3; 5]%Z))
+    (mk_Circuit (menv unit nofree (fun _ => [1; 3; 5]%Z)) [(xg, [1]%Z)] 2%Z) [5; 1; 3; 3]%Z
+    (inl (fun ps : list unit => Ok (Base "RX" ps 1 false))) (Some [[tt]; []; [tt; tt]])
+  = Ok (mk_Circuit (menv unit nofree (fun _ => [1; 3; 5]%Z))
+          [(xg, [1]%Z); (Base "RX" [tt] 1 false, [1]%Z); (Base "RX" [] 1 false, [3]%Z); (Base "RX" [tt; tt] 1 false, [5]%Z)] 6%Z).
+Proof. vm_compute. reflexivity. Qed.
+
+(* Circuit.free_symbols and Circuit.bind are translated too.  Circ/Constructions.v has no counterpart for them; what the
+   generated functions compute is stated for EVERY environment ([first_seen]: each symbol at its first appearance;
+   [bind_all]: operation.bind on every operation in order, the first exception wins, then the constructor with the old
+   width), and for the environment [benv] of property C06's model (Circ/Bind.v) they are its circuit_free / circuit_bind. *)
+Require OQ.Circ.Bind.
+Require Import OQ.Circ.CircuitGenBindProofs.
+
+Theorem generated_init_positive_width : forall (E : pyenv) (ops : list (Op E)) (n : Z),
+  (0 < n)%Z -> Circuit_init_gen E (Some ops) (Some n) = Ok (mk_Circuit E ops n).
+Proof. exact init_gen_positive. Qed.
+Print Assumptions generated_init_positive_width.
+
+Theorem generated_free_symbols_first_appearance : forall (E : pyenv) (c : Circuit_obj E),
+  Circuit_free_symbols_gen E c = Ok (first_seen E [] (flat_map (op_free_symbols E) (Circuit__operations E c))).
+Proof. exact free_symbols_gen_spec. Qed.
+Print Assumptions generated_free_symbols_first_appearance.
+
+Theorem generated_bind_binds_each_operation : forall (E : pyenv) (c : Circuit_obj E) (m : SymMap E),
+  Circuit_bind_gen E c m
+  = bind (bind_all E m (Circuit__operations E c)) (fun ops' => Circuit_init_gen E (Some ops') (Some (Circuit__n_qubits E c))).
+Proof. exact bind_gen_spec. Qed.
+Print Assumptions generated_bind_binds_each_operation.
+
+Theorem generated_free_symbols_is_C06_model : forall c : Bind.circuit,
+  Circuit_free_symbols_gen benv (binj c) = Ok (Bind.circuit_free c).
+Proof. exact free_symbols_gen_is_C06_model. Qed.
+Print Assumptions generated_free_symbols_is_C06_model.
+
+Theorem generated_bind_is_C06_model : forall (c : Bind.circuit) (m : Bind.smap),
+  Bind.width c <> 0 ->
+  Circuit_bind_gen benv (binj c) m
+  = match Bind.circuit_bind m c with Bind.Ok c' => Ok (binj c') | Bind.Err e => Raise (of_err e) end.
+Proof. exact bind_gen_is_C06_model. Qed.
+Print Assumptions generated_bind_is_C06_model.
